@@ -703,6 +703,285 @@ def table_fuse(body: List[ast.stmt]) -> List[ast.stmt]:
     return body
 
 
+def unprecompute_lists(fn: ast.FunctionDef) -> int:
+    """PRECOMP-LIST (in place): `L = [F(i) for i in range(len(X) + c)]` (c = 0 or 1, bound once) whose only uses are `zip(P, L)` with P of the
+    same length as X (P is X, or X is a comprehension over P without filter) and `L[-1]`:  `for T, l in zip(P, L)` becomes
+    `for i, T in enumerate(P)` with l replaced by F(i);  `L[-1]` becomes F(len(X) + c - 1), and `X[:len(X)]` is X.  Returns the number of lists
+    removed."""
+    nst: Dict[str, int] = {}
+    defs: Dict[str, ast.Assign] = {}
+    for n in ast.walk(fn):
+        if isinstance(n, ast.Name) and isinstance(n.ctx, ast.Store):
+            nst[n.id] = nst.get(n.id, 0) + 1
+        if isinstance(n, ast.Assign) and len(n.targets) == 1 and isinstance(n.targets[0], ast.Name):
+            defs[n.targets[0].id] = n
+    done = 0
+    for L, a in list(defs.items()):
+        v = a.value
+        if nst.get(L) != 1 or not (isinstance(v, ast.ListComp) and len(v.generators) == 1 and not v.generators[0].ifs
+                                   and isinstance(v.generators[0].target, ast.Name)):
+            continue
+        g = v.generators[0]
+        it = g.iter
+        if not (isinstance(it, ast.Call) and isinstance(it.func, ast.Name) and it.func.id == "range" and len(it.args) == 1):
+            continue
+        N = it.args[0]
+        c = 0
+        if isinstance(N, ast.BinOp) and isinstance(N.op, ast.Add) and isinstance(N.right, ast.Constant) and N.right.value == 1:
+            N, c = N.left, 1
+        if not (isinstance(N, ast.Call) and isinstance(N.func, ast.Name) and N.func.id == "len" and len(N.args) == 1 and isinstance(N.args[0], ast.Name)):
+            continue
+        X = N.args[0].id
+        ivar = g.target.id
+        same_len = {X}
+        xd = defs.get(X)
+        if xd is not None and nst.get(X) == 1 and isinstance(xd.value, ast.ListComp) and len(xd.value.generators) == 1 and not xd.value.generators[0].ifs \
+                and isinstance(xd.value.generators[0].iter, ast.Name):
+            same_len.add(xd.value.generators[0].iter.id)
+        uses = [n for n in ast.walk(fn) if isinstance(n, ast.Name) and n.id == L and isinstance(n.ctx, ast.Load)]
+        parents = {}
+        for n in ast.walk(fn):
+            for ch in ast.iter_child_nodes(n):
+                parents[id(ch)] = n
+        plan = []
+        ok = True
+        for u in uses:
+            par = parents.get(id(u))
+            if isinstance(par, ast.Subscript) and par.value is u and isinstance(par.slice, ast.UnaryOp) and isinstance(par.slice.op, ast.USub) \
+                    and isinstance(par.slice.operand, ast.Constant) and par.slice.operand.value == 1 and c == 1:
+                plan.append(("last", par))
+            elif isinstance(par, ast.Call) and isinstance(par.func, ast.Name) and par.func.id == "zip" and len(par.args) == 2 and par.args[1] is u \
+                    and isinstance(par.args[0], ast.Name) and par.args[0].id in same_len and isinstance(parents.get(id(par)), (ast.comprehension, ast.For)) \
+                    and parents[id(par)].iter is par and isinstance(parents[id(par)].target, (ast.Tuple, ast.List)) and len(parents[id(par)].target.elts) == 2 \
+                    and isinstance(parents[id(par)].target.elts[1], ast.Name):
+                plan.append(("zip", par))
+            else:
+                ok = False
+        if not ok or not plan:
+            continue
+
+        def F(i_expr):
+            class S(ast.NodeTransformer):
+                def visit_Name(self, n):
+                    return copy.deepcopy(i_expr) if n.id == ivar and isinstance(n.ctx, ast.Load) else n
+            e = S().visit(copy.deepcopy(v.elt))
+
+            class Z(ast.NodeTransformer):
+                def visit_Subscript(self, sub):
+                    self.generic_visit(sub)
+                    sl = sub.slice
+                    if isinstance(sl, ast.Slice) and sl.lower is None and sl.step is None and isinstance(sl.upper, ast.Call) and isinstance(sl.upper.func, ast.Name) \
+                            and sl.upper.func.id == "len" and len(sl.upper.args) == 1 and ast.dump(sl.upper.args[0]) == ast.dump(sub.value):
+                        return sub.value              # X[:len(X)] is X
+                    return sub
+            return Z().visit(e)
+        k = 0
+        for kind, node in plan:
+            if kind == "last":
+                new = F(copy.deepcopy(N))             # index len(X) + 1 - 1
+                par = parents[id(node)]
+                for fld, val in ast.iter_fields(par):
+                    if val is node:
+                        setattr(par, fld, new)
+                    elif isinstance(val, list) and any(x is node for x in val):
+                        setattr(par, fld, [new if x is node else x for x in val])
+            else:
+                holder = parents[id(node)]            # comprehension or For
+                k += 1
+                idx = f"pos__{L}_{k}"
+                lname = holder.target.elts[1].id
+                first = holder.target.elts[0]
+                holder.target = ast.Tuple([ast.Name(idx, ast.Store()), first], ast.Store())
+                holder.iter = ast.Call(ast.Name("enumerate", ast.Load()), [node.args[0]], [])
+                scope = parents[id(holder)] if isinstance(holder, ast.comprehension) else holder
+                repl = F(ast.Name(idx, ast.Load()))
+
+                class U(ast.NodeTransformer):
+                    def visit_Name(self, n):
+                        return copy.deepcopy(repl) if n.id == lname and isinstance(n.ctx, ast.Load) else n
+                if isinstance(holder, ast.comprehension):
+                    for fld in ("elt", "key", "value"):
+                        if hasattr(scope, fld):
+                            setattr(scope, fld, U().visit(getattr(scope, fld)))
+                else:
+                    holder.body = [U().visit(b) for b in holder.body]
+
+        def prune(stmts):
+            out = []
+            for st in stmts:
+                if st is a:
+                    continue
+                for fld in ("body", "orelse", "finalbody"):
+                    vv = getattr(st, fld, None)
+                    if isinstance(vv, list) and vv and all(isinstance(x, ast.stmt) for x in vv) and not isinstance(st, (ast.FunctionDef, ast.ClassDef)):
+                        setattr(st, fld, prune(vv) or [ast.Pass()])
+                out.append(st)
+            return out
+        fn.body = prune(fn.body)
+        done += 1
+    if done:
+        ast.fix_missing_locations(fn)
+    return done
+
+
+def prefix_zip(body: List[ast.stmt]) -> List[ast.stmt]:
+    """PREFIX-ZIP: `for [i,] (k, n, a, b) in [enumerate](zip(K, S, STARTS, STOPS))` where S = [F(x) for x in K] and STARTS / STOPS are the running
+    sums of S before / after each element (itertools.accumulate, np.cumsum, `[0] + stops[:-1]`, `offs[:-1]` / `offs[1:]`) is the loop that keeps
+    the running sum itself:  `o = 0; for [i,] k in [enumerate](K): n = F(k); a = o; b = o + n; o += n; S`.  (Definition of a prefix sum; same
+    container-stability assumption as UNZIP-MAP.)  Every list involved is a local bound once; the zip may be held in a local (`list(zip(..))`)."""
+    mod = ast.Module(body=body, type_ignores=[])
+    nst: Dict[str, int] = {}
+    defs: Dict[str, ast.expr] = {}
+    for n in ast.walk(mod):
+        if isinstance(n, ast.Name) and isinstance(n.ctx, ast.Store):
+            nst[n.id] = nst.get(n.id, 0) + 1
+        if isinstance(n, ast.Assign) and len(n.targets) == 1 and isinstance(n.targets[0], ast.Name):
+            defs[n.targets[0].id] = n.value
+
+    def R(e, depth=0):
+        while isinstance(e, ast.Name) and nst.get(e.id) == 1 and e.id in defs and depth < 6:
+            e = defs[e.id]
+            depth += 1
+        return e
+
+    def unlist(e):
+        e = R(e)
+        if isinstance(e, ast.Call) and isinstance(e.func, ast.Name) and e.func.id in ("list", "tuple") and len(e.args) == 1 and not e.keywords:
+            return R(e.args[0])
+        if isinstance(e, ast.Call) and isinstance(e.func, ast.Attribute) and e.func.attr == "tolist" and not e.args:
+            return R(e.func.value)
+        return e
+
+    def same(a, b):
+        return ast.dump(R(a)) == ast.dump(R(b))
+
+    def cumsum_of(e):
+        """S when e is the running sums of S (length len(S)); ('lead0', S) when it is [0] + running sums (length len(S) + 1)"""
+        e = unlist(e)
+        if isinstance(e, ast.Call) and ast.unparse(e.func) in ("accumulate", "itertools.accumulate", "np.cumsum", "numpy.cumsum") and len(e.args) == 1 and not e.keywords:
+            a = R(e.args[0])
+            if isinstance(a, ast.BinOp) and isinstance(a.op, ast.Add) and isinstance(R(a.left), ast.List) and len(R(a.left).elts) == 1 \
+                    and isinstance(R(a.left).elts[0], ast.Constant) and R(a.left).elts[0].value == 0:
+                return ("lead0", a.right)
+            return ("plain", a)
+        if isinstance(e, ast.BinOp) and isinstance(e.op, ast.Add) and isinstance(R(e.left), ast.List) and len(R(e.left).elts) == 1 \
+                and isinstance(R(e.left).elts[0], ast.Constant) and R(e.left).elts[0].value == 0:
+            inner = cumsum_of(e.right)
+            if inner and inner[0] == "plain":
+                return ("lead0", inner[1])
+        return None
+
+    def role(e, S):
+        """'stops' / 'starts' relative to the size list S, or None"""
+        e0 = R(e)
+        c = cumsum_of(e0)
+        if c and c[0] == "plain" and same(c[1], S):
+            return "stops"
+        if isinstance(e0, ast.Subscript) and isinstance(e0.slice, ast.Slice) and e0.slice.step is None:
+            base = cumsum_of(e0.value)
+            lo, hi = e0.slice.lower, e0.slice.upper
+            is_m1 = isinstance(hi, ast.UnaryOp) and isinstance(hi.op, ast.USub) and isinstance(hi.operand, ast.Constant) and hi.operand.value == 1
+            if base and base[0] == "lead0" and same(base[1], S):
+                if lo is None and is_m1:
+                    return "starts"
+                if isinstance(lo, ast.Constant) and lo.value == 1 and hi is None:
+                    return "stops"
+        if isinstance(e0, ast.BinOp) and isinstance(e0.op, ast.Add) and isinstance(R(e0.left), ast.List) and len(R(e0.left).elts) == 1 \
+                and isinstance(R(e0.left).elts[0], ast.Constant) and R(e0.left).elts[0].value == 0:
+            r = R(e0.right)
+            if isinstance(r, ast.Subscript) and isinstance(r.slice, ast.Slice) and r.slice.lower is None and r.slice.step is None \
+                    and isinstance(r.slice.upper, ast.UnaryOp) and isinstance(r.slice.upper.op, ast.USub) and isinstance(r.slice.upper.operand, ast.Constant) \
+                    and r.slice.upper.operand.value == 1:
+                c2 = cumsum_of(r.value)
+                if c2 and c2[0] == "plain" and same(c2[1], S):
+                    return "starts"
+        return None
+    names = {n.id for n in ast.walk(mod) if isinstance(n, ast.Name)}
+    changed = [False]
+
+    def conv(stmts):
+        out = []
+        for st in stmts:
+            for fld in ("body", "orelse", "finalbody"):
+                v = getattr(st, fld, None)
+                if isinstance(v, list) and v and all(isinstance(x, ast.stmt) for x in v) and not isinstance(st, (ast.FunctionDef, ast.ClassDef)):
+                    setattr(st, fld, conv(v))
+            if isinstance(st, ast.For) and not st.orelse:
+                it, tgt, enum = st.iter, st.target, False
+                if isinstance(it, ast.Call) and isinstance(it.func, ast.Name) and it.func.id == "enumerate" and len(it.args) == 1 and not it.keywords \
+                        and isinstance(tgt, (ast.Tuple, ast.List)) and len(tgt.elts) == 2:
+                    it, tgt, enum = it.args[0], tgt.elts[1], True
+                z = unlist(it)
+                if isinstance(z, ast.Call) and isinstance(z.func, ast.Name) and z.func.id == "zip" and not z.keywords and len(z.args) in (3, 4) \
+                        and isinstance(tgt, (ast.Tuple, ast.List)) and len(tgt.elts) == len(z.args) and all(isinstance(e, ast.Name) for e in tgt.elts):
+                    args = list(z.args)
+                    K = args[0]
+                    # the size list: a map of K
+                    sidx = None
+                    for i, a in enumerate(args[1:], 1):
+                        m_ = R(a)
+                        if isinstance(m_, ast.ListComp) and len(m_.generators) == 1 and not m_.generators[0].ifs and isinstance(m_.generators[0].target, ast.Name) \
+                                and same(m_.generators[0].iter, K):
+                            sidx = i
+                            break
+                    if sidx is not None:
+                        S = args[sidx]
+                        roles = {i: role(a, S) for i, a in enumerate(args) if i not in (0, sidx)}
+                        if all(r in ("starts", "stops") for r in roles.values()) and not any(isinstance(x, ast.Call) and not (
+                                isinstance(x.func, ast.Name) and x.func.id in ("sorted", "list")) for x in ast.walk(R(K))):
+                            m_ = R(S)
+                            x = m_.generators[0].target.id
+                            kvar, nvar = tgt.elts[0].id, tgt.elts[sidx].id
+                            off = "offset__"
+                            i_ = 0
+                            while off + str(i_) in names:
+                                i_ += 1
+                            off = off + str(i_)
+                            names.add(off)
+
+                            class Sb(ast.NodeTransformer):
+                                def visit_Name(self, n):
+                                    return ast.copy_location(ast.Name(kvar, ast.Load()), n) if n.id == x and isinstance(n.ctx, ast.Load) else n
+                            pre = [ast.Assign([ast.Name(nvar, ast.Store())], Sb().visit(copy.deepcopy(m_.elt)))]
+                            for i, r in roles.items():
+                                v = ast.Name(off, ast.Load()) if r == "starts" else ast.BinOp(ast.Name(off, ast.Load()), ast.Add(), ast.Name(nvar, ast.Load()))
+                                pre.append(ast.Assign([ast.Name(tgt.elts[i].id, ast.Store())], v))
+                            pre.append(ast.AugAssign(ast.Name(off, ast.Store()), ast.Add(), ast.Name(nvar, ast.Load())))
+                            new_t = ast.Tuple([st.target.elts[0], ast.Name(kvar, ast.Store())], ast.Store()) if enum else ast.Name(kvar, ast.Store())
+                            new_it = ast.Call(ast.Name("enumerate", ast.Load()), [copy.deepcopy(R(K))], []) if enum else copy.deepcopy(R(K))
+                            loop = ast.copy_location(ast.For(new_t, new_it, [ast.copy_location(p_, st) for p_ in pre] + st.body, []), st)
+                            init = ast.copy_location(ast.Assign([ast.Name(off, ast.Store())], ast.Constant(0)), st)
+                            ast.fix_missing_locations(loop)
+                            ast.fix_missing_locations(init)
+                            out.extend([init, loop])
+                            changed[0] = True
+                            continue
+            out.append(st)
+        return out
+    if not any(isinstance(n, ast.Call) and isinstance(n.func, ast.Name) and n.func.id == "zip" for n in ast.walk(mod)):
+        return body
+    new = conv(body)
+    if not changed[0]:
+        return body
+    # the helper lists nobody reads any more
+    loads = {n.id for st in new for n in ast.walk(st) if isinstance(n, ast.Name) and isinstance(n.ctx, ast.Load)}
+    dead = True
+    while dead:
+        dead = False
+        keep = []
+        for st in new:
+            if isinstance(st, ast.Assign) and len(st.targets) == 1 and isinstance(st.targets[0], ast.Name) and st.targets[0].id not in loads \
+                    and nst.get(st.targets[0].id) == 1 and not any(isinstance(x, ast.Call) and not (
+                        isinstance(x.func, ast.Name) and x.func.id in ("list", "tuple", "zip", "len", "sorted", "accumulate") or ast.unparse(x.func) in (
+                            "np.cumsum", "itertools.accumulate") or (isinstance(x.func, ast.Attribute) and x.func.attr == "tolist")) for x in ast.walk(st.value)):
+                dead = True
+                continue
+            keep.append(st)
+        new = keep
+        loads = {n.id for st in new for n in ast.walk(st) if isinstance(n, ast.Name) and isinstance(n.ctx, ast.Load)}
+    return new
+
+
 def unzip_map(body: List[ast.stmt]) -> List[ast.stmt]:
     """UNZIP-MAP: `L = [F(x) for x in K]` (bound once) ... `for (k, l) in zip(K, L): S`  ->  `for k in K: l = F(k); S` (also under enumerate()).
     F is call-free apart from len(), so it reads the same containers whether it is evaluated before the loop or inside it -- provided the loop
@@ -2019,9 +2298,66 @@ class Normaliser:
         return out
 
     # ---------------------------------------------------------------- driver
+    def expand_in_tests(self, fn: ast.FunctionDef) -> ast.FunctionDef:
+        """EXPR-INLINE in conditions: a resolvable helper whose body is one `return E`, called inside an if / while test with simple arguments,
+        is E with the parameters replaced (statement-level calls are handled by INLINE / HOIST)"""
+        if self.resolve_call is None:
+            return fn
+        nz = self
+
+        def simple(e):
+            return all(isinstance(x, (ast.Name, ast.Constant, ast.Attribute, ast.expr_context)) for x in ast.walk(e))
+
+        class T(ast.NodeTransformer):
+            def visit_Call(self, c):
+                self.generic_visit(c)
+                h = nz.resolve_call(c)
+                if h is None or h.args.vararg or h.args.kwarg:
+                    return c
+                body = [b for b in h.body if not (isinstance(b, ast.Expr) and isinstance(b.value, ast.Constant))]
+                if len(body) != 1 or not isinstance(body[0], ast.Return) or body[0].value is None:
+                    return c
+                pos = [a.arg for a in h.args.posonlyargs + h.args.args]
+                keep = {}
+                rcv = nz._receiver(c, h)
+                deco = {ast.unparse(d) for d in h.decorator_list}
+                if rcv is not None and pos:
+                    keep[pos[0]] = rcv
+                    pos = pos[1:]
+                if any(isinstance(a, ast.Starred) for a in c.args) or any(k.arg is None for k in c.keywords) or len(c.args) > len(pos):
+                    return c
+                params = pos + [a.arg for a in h.args.kwonlyargs]
+                bound = dict(zip(pos, c.args))
+                for k in c.keywords:
+                    if k.arg not in params or k.arg in bound:
+                        return c
+                    bound[k.arg] = k.value
+                if set(params) - set(bound) or not all(simple(v) for v in bound.values()):
+                    return c
+                E = body[0].value
+                inner = {x.id for x in ast.walk(E) if isinstance(x, ast.Name) and isinstance(x.ctx, ast.Store)}
+                if inner & ({x.id for v in bound.values() for x in ast.walk(v) if isinstance(x, ast.Name)} | set(keep.values())):
+                    return c
+
+                class S(ast.NodeTransformer):
+                    def visit_Name(self, n):
+                        if isinstance(n.ctx, ast.Load) and n.id in bound and n.id not in inner:
+                            return copy.deepcopy(bound[n.id])
+                        if n.id in keep:
+                            return ast.copy_location(ast.Name(keep[n.id], n.ctx), n)
+                        return n
+                nz.inlined.append(h.name)
+                return ast.copy_location(S().visit(copy.deepcopy(E)), c)
+        for n in ast.walk(fn):
+            if isinstance(n, (ast.If, ast.While)):
+                n.test = T().visit(n.test)
+        ast.fix_missing_locations(fn)
+        return fn
+
     def function(self, fn: ast.FunctionDef) -> ast.FunctionDef:
         out = copy.deepcopy(fn)
         out.body = strip_logging(out.body)
+        out = self.expand_in_tests(out)
         self.caller_names = {n.id for n in ast.walk(fn) if isinstance(n, ast.Name)} | {a.arg for a in ast.walk(fn) if isinstance(a, ast.arg)}
         body = [s for s in out.body if not (isinstance(s, ast.Expr) and isinstance(s.value, ast.Constant) and isinstance(s.value.value, str))]
         body = unzip_map(unproduct(body))
@@ -2030,6 +2366,7 @@ class Normaliser:
         body = self.inline_block(body)
         self.resolve_call = saved_res
         body = tuple_scalarise(drop_unused_defs(body, local_defs))
+        body = prefix_zip(body)
         body = copy_propagate(split_assign(body))
         body = self.beta(body)
         body = self.attr_forward(body)
